@@ -37,13 +37,22 @@ class CMAESDesigner(vza.PartiallySerializableDesigner):
   finished populations.
   """
 
-  def __init__(self, problem_statement: vz.ProblemStatement, **cma_kwargs):
+  def __init__(
+      self,
+      problem_statement: vz.ProblemStatement,
+      seed: Optional[int] = None,
+      **cma_kwargs,
+  ):
     """Init.
 
     Args:
       problem_statement: Must use a flat DOUBLE-only search space.
+      seed: Random seed. Designer policies always pass `seed=` (None when
+        unset), which CMA_ES_JAX does not accept; None keeps its default.
       **cma_kwargs: Keyword arguments for the CMA_ES_JAX class.
     """
+    if seed is not None:
+      cma_kwargs['seed'] = seed
     self._problem_statement = problem_statement
     self._metric_name = self._problem_statement.metric_information.item().name
 
